@@ -260,25 +260,33 @@ def gmx1_world(frozen_bar=1, usdg_class=None, n=3):
     return World("gmx1", build, roots, {"gmx1.data": data, "prices": prices})
 
 
-def gmx2_world(frozen_bar=1, kind="mild", impact="small", n=3, single_token=False):
+def gmx2_world(frozen_bar=1, kind="mild", impact="small", n=3, single_token=False, synthetic=False, long_only_wallet=False):
     from . import gmx
 
-    data = _raw("gmx2.raw", gmx.v2_frame(n, kind, impact, single_token))
+    data = _raw("gmx2.raw", gmx.v2_frame(n, kind, impact, single_token, synthetic))
     if single_token:
         # one token on both sides: a deposit can be covered side by side and still not in sum
         prices = pd.DataFrame(index=data.index, data={"WETH": [Decimal(str(x)) for x in data["longPrice"]]})
         prices["USD"] = Decimal(1)
     else:
-        prices = gmx.v2_prices(data, gmx.make_v2(data))
+        prices = gmx.v2_prices(data, gmx.make_v2(data, synthetic=synthetic))
     wname = f"gmx2({kind},{impact})" if not single_token else f"gmx2({kind},{impact},single-token)"
+    if synthetic:
+        wname = f"gmx2({kind},{impact},synthetic-index)"
+    if long_only_wallet:
+        # the market is driven without an Actuator (whose check_market would register missing tokens with 0): the short token has no wallet entry at all
+        wname = f"gmx2({kind},{impact},no-short-token-entry)"
+    funds = [(gmx.V2_LONG, 4), (gmx.V2_SHORT, 9000)] if not single_token else [(gmx.V2_LONG, 8)]
+    if long_only_wallet:
+        funds = funds[:1]
 
     def build():
-        m = gmx.make_v2(data, single_token=single_token)
-        ctx = Ctx(wname, prices, USD, [gmx.Gmx2Adapter(m, data)], [(gmx.V2_LONG, 4), (gmx.V2_SHORT, 9000)] if not single_token else [(gmx.V2_LONG, 8)], data.index)
+        m = gmx.make_v2(data, single_token=single_token, synthetic=synthetic)
+        ctx = Ctx(wname, prices, USD, [gmx.Gmx2Adapter(m, data)], funds, data.index)
         _begin(ctx, frozen_bar)
         return ctx
 
-    roots = ((), ("gmx2.deposit[part,part]",), ("gmx2.deposit[part,0]", "gmx2.deposit[0,part]"))
+    roots = ((), ("gmx2.deposit[part,part]",), ("gmx2.deposit[part,0]", "gmx2.deposit[0,part]")) if not long_only_wallet else ((),)
     w = World(wname, build, roots, {"gmx2.data": data, "prices": prices})
     w.allowed_gain = lambda ctx, op: ctx.adapters[0].allowed_gain(ctx, op)
     return w
